@@ -17,11 +17,17 @@ def plan(ctx):
     return [('case', engine.stable_hash((ctx.seed, 'c09', i))) for i in range(n)]
 
 
-def check_rows(rows_):
+def check_rows(rows_, input_text=None):
     """Returns (problem or None, stats)."""
     n_seq = 0
     for i, r in enumerate(rows_):
         n_seq += r.sgr_seqs
+        if input_text is not None:
+            # delta itself writes SGR, erase-in-line and OSC 8 only: any other control sequence in its output must have
+            # come from the input as it stands (a sequence cut in half often still reads as some well-formed CSI)
+            for q in r.other_seqs:
+                if q not in input_text:
+                    return ('foreign-sequence', 'row %d holds a control sequence %r that is neither one delta writes nor present in the input' % (i, q)), n_seq
         if r.malformed:
             return ('malformed', 'row %d: %s' % (i, r.malformed[0])), n_seq
         if not r.end_sgr_default:
@@ -94,7 +100,7 @@ def run_item(item):
     if res.rc != 0:
         return inconclusive('exit %d: %s' % (res.rc, res.err[:120]))
     rows_ = term.decode(res.out)
-    problem, nseq = check_rows(rows_)
+    problem, nseq = check_rows(rows_, data.decode('utf-8', 'replace'))
     counters = {'rows_checked': len(rows_), 'sgr_sequences': nseq,
                 'links_seen': sum(len(r.links) for r in rows_)}
     sets = {'kinds': [case['kind']], 'views': [case['view']], 'option_classes': case['meta']['classes'], 'mode': [mode]}
